@@ -337,3 +337,118 @@ theorem serveFrom_indep (s : Server) (o : Opts) (t t' : Target) (e : Env) (addr 
       · split <;> simp
 
 end LtVerif.Access
+
+namespace LtVerif.Access
+open LtVerif B
+
+/-! ### rule lists -/
+
+theorem matchValueSuffix_casefold (a : List Bytes) (p q : Bytes) (h : p.map toLower = q.map toLower) :
+    matchValueSuffix true a p = matchValueSuffix true a q :=
+  findIdx?_congr _ _ a (fun v _ => sufMatch_casefold v p q h)
+
+theorem matchKeyPrefix_casefold (a : List Bytes) (p q : Bytes) (h : p.map toLower = q.map toLower) :
+    matchKeyPrefix true a p = matchKeyPrefix true a q :=
+  findIdx?_congr _ _ a (fun v _ => preMatch_casefold v p q h)
+
+/-- case-insensitive first-match = plain first-match on lower-cased rules and path -/
+theorem matchValueSuffix_nc_eq (a : List Bytes) (p : Bytes) :
+    matchValueSuffix true a p = matchValueSuffix false (a.map (·.map toLower)) (p.map toLower) := by
+  unfold matchValueSuffix
+  rw [List.findIdx?_map]
+  exact findIdx?_congr _ _ a (fun v _ => by simp [sufMatch_nc_eq])
+
+theorem matchKeyPrefix_nc_eq (a : List Bytes) (p : Bytes) :
+    matchKeyPrefix true a p = matchKeyPrefix false (a.map (·.map toLower)) (p.map toLower) := by
+  unfold matchKeyPrefix
+  rw [List.findIdx?_map]
+  exact findIdx?_congr _ _ a (fun v _ => by simp [preMatch_nc_eq])
+
+theorem accessCheck_casefold (allow deny : List Bytes) (p q : Bytes) (h : p.map toLower = q.map toLower) :
+    accessCheck allow deny p true = accessCheck allow deny q true := by
+  unfold accessCheck
+  rw [matchValueSuffix_casefold allow p q h, matchValueSuffix_casefold deny p q h]
+
+theorem accessCheck_nc_eq (allow deny : List Bytes) (p : Bytes) :
+    accessCheck allow deny p true =
+      accessCheck (allow.map (·.map toLower)) (deny.map (·.map toLower)) (p.map toLower) false := by
+  unfold accessCheck
+  rw [matchValueSuffix_nc_eq allow, matchValueSuffix_nc_eq deny]
+  simp
+
+/-! ### conditional configuration -/
+
+/-- conditions that do not distinguish letter case of the URL: everything except the
+    case-sensitive string comparisons on `$HTTP["url"]`; a regular expression must be
+    case-insensitive -/
+def Scope.caseBlind : Scope → Prop
+  | .url _ _ => False
+  | .urlRe _ m => ∀ u v : Bytes, u.map toLower = v.map toLower → m u = m v
+  | _ => True
+
+/-- conditions that do not look at the URL at all -/
+def Scope.urlFree : Scope → Prop
+  | .url _ _ => False
+  | .urlRe _ _ => False
+  | _ => True
+
+theorem holds_caseBlind (sc : Scope) (hb : sc.caseBlind) (u v h : Bytes) (a : SockAddr)
+    (huv : u.map toLower = v.map toLower) : sc.holds ⟨u, h, a⟩ = sc.holds ⟨v, h, a⟩ := by
+  cases sc with
+  | global => rfl
+  | url op s => exact absurd hb (by simp [Scope.caseBlind])
+  | urlRe neg m =>
+    simp only [Scope.caseBlind] at hb
+    simp [Scope.holds, hb u v huv]
+  | host op s => cases op <;> rfl
+  | ip neg net bits => rfl
+
+theorem holds_urlFree (sc : Scope) (hb : sc.urlFree) (u v h : Bytes) (a : SockAddr) :
+    sc.holds ⟨u, h, a⟩ = sc.holds ⟨v, h, a⟩ := by
+  cases sc with
+  | global => rfl
+  | url op s => exact absurd hb (by simp [Scope.urlFree])
+  | urlRe neg m => exact absurd hb (by simp [Scope.urlFree])
+  | host op s => cases op <;> rfl
+  | ip neg net bits => rfl
+
+theorem setting_congr {α : Type} (sel : Block → Option α) (cfg : List Block) (e e' : Env)
+    (h : ∀ b ∈ cfg, (sel b).isSome = true → b.scope.holds e = b.scope.holds e') :
+    setting sel cfg e = setting sel cfg e' := by
+  unfold setting
+  generalize (none : Option α) = acc
+  induction cfg generalizing acc with
+  | nil => rfl
+  | cons b bs ih =>
+    simp only [List.foldl_cons]
+    have hb := h b (by simp)
+    cases hs : sel b with
+    | none =>
+      simp only [ite_self]
+      exact ih (fun b' hb' => h b' (by simp [hb'])) acc
+    | some v =>
+      rw [hb (by simp [hs])]
+      exact ih (fun b' hb' => h b' (by simp [hb'])) _
+
+/-- under force-lowercase-filenames the mod_access hook looks at the lower-cased URL only,
+    provided no condition of the configuration compares the URL case-sensitively -/
+theorem accessHook_casefold (cfg : List Block) (hcb : ∀ b ∈ cfg, b.scope.caseBlind)
+    (u v h : Bytes) (a : SockAddr) (huv : u.map toLower = v.map toLower) :
+    accessHook cfg ⟨u, h, a⟩ true = accessHook cfg ⟨v, h, a⟩ true := by
+  unfold accessHook
+  rw [setting_congr (·.allow) cfg ⟨u, h, a⟩ ⟨v, h, a⟩ (fun b hb _ => holds_caseBlind _ (hcb b hb) u v h a huv),
+      setting_congr (·.deny) cfg ⟨u, h, a⟩ ⟨v, h, a⟩ (fun b hb _ => holds_caseBlind _ (hcb b hb) u v h a huv)]
+  exact accessCheck_casefold _ _ u v huv
+
+/-! ### auth.require prefixes -/
+
+theorem authRule_casefold (rules : List Bytes) (p q : Bytes) (h : p.map toLower = q.map toLower) :
+    authRule rules p true = authRule rules q true :=
+  matchKeyPrefix_casefold rules p q h
+
+/-- a guarded path stays guarded (by the same or an earlier rule) when anything is appended -/
+theorem authRule_append (rules : List Bytes) (p x : Bytes) (lc : Bool) (i : Nat)
+    (h : authRule rules p lc = some i) : ∃ j, j ≤ i ∧ authRule rules (p ++ x) lc = some j :=
+  findIdx?_mono _ _ rules (fun k _ hk => preMatch_append lc k p x hk) i h
+
+end LtVerif.Access
